@@ -27,6 +27,16 @@ func propC18(c *Ctx, r *Report) {
 	r.rule("C18-R3/publish-after-commit", 1, "the sync height read by API handlers is advanced only after Commit succeeded")
 	rulePublishAfterCommit(c, sa, r, "C18-R3/publish-after-commit")
 	ruleAPIWritesNothingSyncReads(c, newSharedAnalysis(c), r, "C18-R5/api-leaves-no-state")
+	{
+		scope := map[*ssa.Function]bool{}
+		for f := range c.RSync {
+			scope[f] = true
+		}
+		for f := range c.RAPI {
+			scope[f] = true
+		}
+		ruleNoRecursiveLock(c, r, "C18-R6/no-recursive-lock", scope)
+	}
 	r.rule("C18-R4/handler-goroutines", 1, "a goroutine started while serving a request cannot panic unrecovered")
 	{
 		panics := map[*ssa.Function]bool{}
@@ -230,6 +240,10 @@ func propC09(c *Ctx, r *Report) {
 		}
 		r.Extra["startup_write_statements"] = n
 	}
+	// the averages do not depend on an era test or on the wrong height (shared with C07): both make the cache state,
+	// and with it the pricing, depend on where the process was started
+	ruleAveragesEraFree(c, r, "C09/averages-era-free")
+	ruleHoldingWindow(c, r, "C09/averages-height")
 	r.rule("C09/config-stable", 1, "no activation/config global is written while the daemon runs")
 	n := 0
 	for _, a := range sa.Acc {
